@@ -163,6 +163,41 @@ impl Func {
     }
 }
 
+impl Func {
+    /// The mathematically exact value, computed in f64 (glibc double
+    /// functions, < 1 ULP of f64). Used only to tell an rten error from a
+    /// few-ULP inaccuracy of this image's f32 libm (DESIGN C19 risk note).
+    fn truth(self, x: f32) -> f64 {
+        let x = x as f64;
+        match self {
+            Func::Exp => x.exp(),
+            Func::Sigmoid => 1.0 / (1.0 + (-x).exp()),
+            Func::Tanh => x.tanh(),
+            Func::Erf => libm::erf(x),
+            Func::Sin => x.sin(),
+            Func::Cos => x.cos(),
+            _ => f64::NAN,
+        }
+    }
+
+    /// Does `actual` meet the numeric bound when measured against the exact value?
+    fn within_bound_of_truth(self, x: f32, actual: f32) -> bool {
+        let t = self.truth(x);
+        if t.is_nan() || !actual.is_finite() {
+            return false;
+        }
+        let d = (actual as f64 - t).abs();
+        match self.contract() {
+            Contract::Ulp(b) => {
+                let r = t as f32;
+                r.is_finite() && d / (ulp_f32(r) as f64) <= b as f64
+            }
+            Contract::Abs(b) | Contract::AbsThenExact(b) => d <= b as f64,
+            Contract::Observe(..) => false,
+        }
+    }
+}
+
 #[derive(Clone, Copy, Debug, PartialEq, Eq, PartialOrd, Ord)]
 enum Kind {
     Bound,
@@ -258,6 +293,10 @@ struct Stats {
     /// histogram of error / bound: [0, (0,0.25], (0.25,0.5], (0.5,1], >1]
     hist: [u64; 5],
     violations: u64,
+    /// inputs that exceed the bound against this image's f32 libm but meet it
+    /// against the exact value (libm artefacts, not counted as violations)
+    libm_artefacts: u64,
+    libm_artefact_example: u32,
     /// first violating input in enumeration order per kind
     first: BTreeMap<Kind, (u32, f32, f32, f32)>,
     viol_by_kind: BTreeMap<Kind, u64>,
@@ -276,6 +315,10 @@ impl Stats {
             self.hist[i] += o.hist[i];
         }
         self.violations += o.violations;
+        if self.libm_artefacts == 0 {
+            self.libm_artefact_example = o.libm_artefact_example;
+        }
+        self.libm_artefacts += o.libm_artefacts;
         for (k, v) in &o.first {
             self.first.entry(*k).or_insert(*v);
         }
@@ -320,7 +363,15 @@ fn eval_segment(func: Func, contract: Contract, seg: Segment, observe_domain_onl
             let x = input[i];
             let a = actual[i];
             let e = func.reference(x);
-            let (err, kind) = judge(func, contract, x, a, e);
+            let (err, mut kind) = judge(func, contract, x, a, e);
+            if kind == Some(Kind::Bound) && !matches!(contract, Contract::Observe(..)) && func.within_bound_of_truth(x, a) {
+                // exceeds the bound only relative to this image's f32 libm
+                if st.libm_artefacts == 0 {
+                    st.libm_artefact_example = x.to_bits();
+                }
+                st.libm_artefacts += 1;
+                kind = None;
+            }
             st.evals += 1;
             if e.is_finite() {
                 st.numeric += 1;
@@ -744,7 +795,11 @@ fn replay(ctx: Ctx, path: &std::path::Path) -> ! {
         let mut many = vec![x; 3 * isa.f32_lanes + 1];
         func.apply(&mut many);
         let e = func.reference(x);
-        let (err, kind) = judge(func, func.contract(), x, one[0], e);
+        let (err, mut kind) = judge(func, func.contract(), x, one[0], e);
+        if kind == Some(Kind::Bound) && func.within_bound_of_truth(x, one[0]) {
+            println!("  (over the bound vs the f32 libm only; within the bound of the exact value: not a violation)");
+            kind = None;
+        }
         println!(
             "replay {}({:e}) isa={}: rten={:e} (0x{:08x}) reference={:e} (0x{:08x}) err={} kind={:?} lanes_agree={}",
             func.name(), x, isa.name, one[0], one[0].to_bits(), e, e.to_bits(), err, kind,
@@ -878,6 +933,12 @@ pub fn run(ctx: Ctx) -> ! {
             numeric += st.numeric;
             distinct_errs.insert(st.max_err.to_bits());
             report(&ctx, func, isa, &st);
+            if st.libm_artefacts > 0 {
+                ctx.observe_n(&format!(
+                    "{} on {}: inputs over the bound against this image's {} but within the bound of the exact (f64) value - attributed to the f32 libm, not flagged",
+                    func.name(), isa.name, func.reference_name()
+                ), st.libm_artefacts);
+            }
             // the doc comments of Sin/Cos quote tighter numbers than the in-tree exhaustive tests
             let doc_bound = match func {
                 Func::Sin => Some(2.5 * f32::EPSILON),
@@ -905,6 +966,8 @@ pub fn run(ctx: Ctx) -> ! {
                 "evaluations": st.evals, "finite_reference": st.numeric, "bit_exact_or_equal": st.exact,
                 "max_error": st.max_err as f64, "argmax_bits": format!("0x{:08x}", st.argmax_bits),
                 "hist_err_over_bound[0,<=.25,<=.5,<=1,>1]": st.hist, "violations": st.violations,
+                "over_bound_vs_f32_libm_but_within_bound_of_exact_value": st.libm_artefacts,
+                "libm_artefact_example_bits": format!("0x{:08x}", st.libm_artefact_example),
             }));
             eprintln!(
                 "C19 {:<8} isa={:<8} evals={} max_err={:e} at 0x{:08x} viol={} t={:.1}s",
